@@ -297,4 +297,26 @@ def sig_d16(spec, fail):
             and d.get("viol", 1) <= FEAS_TOL and d.get("final_iterations_at_constant_resolution", 0) >= 200)
 
 
-SIGNATURES = {"status5_at_minimiser_after_200_iterations_at_constant_resolution": sig_d16}
+def sig_short_step_infeasible(spec, fail):
+    """KF-C04-2: linear equalities; the run ends with status 0 at a point within 1e-6 of the
+    minimiser whose equality violation (below 1e-5) exceeds feasibility_tol: the step that would
+    restore feasibility is shorter than half the resolution and is never evaluated."""
+    d = fail.data
+    return (fail.clause == "C04.feas.lineq" and d.get("status") == 0 and d.get("err", 1) <= 1e-6
+            and FEAS_TOL < d.get("viol", 1) <= 1e-5)
+
+
+def sig_far_start_creep(spec, fail):
+    """KF-C04-3: start 20-50 away from the ball; the resolution is reduced early, after which the run
+    creeps with steps of the size of the resolution (ratio below low_ratio, geometry step after every
+    trust-region step) at one constant resolution until maxfev: status 5 far from the minimiser."""
+    d = fail.data
+    return (fail.clause == "C04.dist.ball" and d.get("status") == 5 and spec.get("dist", 0) >= 20
+            and d.get("final_iterations_at_constant_resolution", 0) >= 200)
+
+
+SIGNATURES = {
+    "status5_at_minimiser_after_200_iterations_at_constant_resolution": sig_d16,
+    "lineq_status0_within_1e-6_of_minimiser_equality_violation_below_1e-5": sig_short_step_infeasible,
+    "ball_far_start_status5_after_200_iterations_at_constant_resolution": sig_far_start_creep,
+}
